@@ -22,6 +22,7 @@ type txCase struct {
 	Kind    string          `json:"kind"` // message | profileName | validationName | in | containsAll | containsSome
 	Text    string          `json:"text"`
 	Present map[string]bool `json:"present"`       // which placeholder properties the focus node has
+	Pad     int             `json:"pad,omitempty"` // list constraints: this many other values next to the tested one
 	CLI     string          `json:"cli,omitempty"` // path of the acv binary: the same texts also go through `acv validate`
 	Scratch string          `json:"scratch,omitempty"`
 }
@@ -94,7 +95,14 @@ func runText(c txCase) (o txObs) {
 		vname = token
 	case "in", "containsAll", "containsSome":
 		prop = "ex.val"
-		constraint = map[string]any{c.Kind: []any{token}}
+		vals := []any{token}
+		for i := 0; i < c.Pad; i++ { // a long enumeration: the tested value is one of many
+			vals = append(vals, fmt.Sprintf("filler value %d", i))
+		}
+		if c.Kind == "containsAll" {
+			vals = vals[:1] // the node holds the tested value only
+		}
+		constraint = map[string]any{c.Kind: vals}
 		n1[exNS+"val"] = []any{map[string]any{"@value": c.Text}}
 		n2[exNS+"val"] = []any{map[string]any{"@value": c.Text + "x"}}
 	default:
